@@ -338,6 +338,11 @@ func init() {
 			for _, m := range []string{"  \u00a0admin\n\troot\n", "\fform\nfeed\n", "\u3000wide\nnarrow\n", " \t\u2003em\nen\n", "x\u00a0\ny\n", "##!> assemble\n  \u00a0in\n  out\n##!<\nlast\n"} {
 				cs = append(cs, &raCase{Prog: &ra.Program{Main: m, Lane: "pinned-leading-blanks", Files: ra.Files{Include: map[string]string{}, Exclude: map[string]string{}}}})
 			}
+			// an entry longer than a 4 KiB buffer, typed and produced by a definition
+			long := strings.Repeat("ab", 2100)
+			for _, m := range []string{long + "\nshort\n", "##!> define big " + long + "\nx{{big}}\nshort\n", "##!> assemble\n  " + long + "c\n  " + long + "d\n##!<\n"} {
+				cs = append(cs, &raCase{Prog: &ra.Program{Main: m, Lane: "pinned-long-entry", Files: ra.Files{Include: map[string]string{}, Exclude: map[string]string{}}}})
+			}
 			return cs
 		},
 		Check:         c01Check,
